@@ -232,3 +232,12 @@ def derive_seed(base: int, *parts) -> int:
         ("/".join(str(p) for p in (base,) + parts)).encode(), digest_size=6
     ).digest()
     return int.from_bytes(h, "big")
+
+
+# Relative displacements used to probe the numerical conditioning of a field value at an
+# observer (DESIGN.md 4.6, condition-aware allowance): +-8 ulp, +-1e-13, +-1e-11 of the
+# coordinate magnitude.  Differences between two evaluation routes that are no larger than
+# what such displacements do to one route are rounding noise of an ill-conditioned formula
+# (edge extensions, far field, near axis), not a difference between the routes.
+_EPS = 2.220446049250313e-16
+NOISE_STEPS = tuple(s * r for r in (8 * _EPS, 1e-13, 1e-11) for s in (1.0, -1.0))
